@@ -102,6 +102,18 @@ Definition sample_delta (sh : shape) (prev cur : kv) : kv * list Z :=
   | ShTSD => (cur, kv_keys (kv_minus prev cur))
   end.
 
+(* What the code actually computes for the REMOVED side (target_link_ops.cpp
+   target_link_previous_slot_was_published: slot_published = live || removed): the
+   slots of the previous target that still carry the "removed" mark of ITS LAST TICK
+   count as published even when that tick was in an earlier cycle, so those [stale]
+   keys are reported removed once more unless the new target holds them.  (Finding
+   C13-stale-removed, see docs/notes-ref.md.) *)
+Definition add_stale (stale : list Z) (prev : kv) : kv :=
+  fold_left (fun m k => if kv_mem k m then m else kv_set k 0 m) stale prev.
+Definition sample_delta_impl (sh : shape) (prev : kv) (stale : list Z) (cur : kv) : kv * list Z :=
+  (fst (sample_delta sh prev cur),
+   match sh with ShTS => [] | _ => kv_keys (kv_minus (add_stale stale prev) cur) end).
+
 (* ------------------------------------------------------------------ state *)
 (* a target output: value, last-modified time, and the delta of its last tick *)
 Record target := mkT {
@@ -118,8 +130,9 @@ Record link := mkL {
   lk_tgt   : option nat;   (* currently bound target *)
   lk_lmt   : Z;            (* the link's OWN modification time *)
   lk_trans : Z;            (* time of the last published sampled transition (keyed); MIN_DT none *)
-  lk_prev  : kv }.         (* what was visible before that transition *)
-Definition l0 : link := mkL None MIN_DT MIN_DT [].
+  lk_prev  : kv;           (* what was visible before that transition *)
+  lk_stale : list Z }.     (* keys removed by the previous target's last tick, if that was an earlier cycle *)
+Definition l0 : link := mkL None MIN_DT MIN_DT [] [].
 
 Record state := mkS {
   tgts : list target;      (* index 0,1,2 = true/lt, false/eq, gt *)
@@ -187,12 +200,15 @@ Definition rebind (sh : shape) (t : Z) (ts : list target) (s : nat) (l : link) :
     let newv := tvalid (get_t ts s) in
     let oldv := match lk_tgt l with Some o => tvalid (get_t ts o) | None => false end in
     let prev := match lk_tgt l with Some o => contents_before t (get_t ts o) | None => [] end in
+    let stale := match lk_tgt l with
+                 | Some o => if tlmt (get_t ts o) <? t then trem (get_t ts o) else []
+                 | None => [] end in
     if is_keyed sh then
-      if newv || oldv then (mkL (Some s) t t prev, true)   (* publish_sampled_transition *)
-      else (mkL (Some s) (lk_lmt l) MIN_DT [], false)
+      if newv || oldv then (mkL (Some s) t t prev stale, true)   (* publish_sampled_transition *)
+      else (mkL (Some s) (lk_lmt l) MIN_DT [] [], false)
     else
-      if newv then (mkL (Some s) t MIN_DT [], true)        (* bind_current_value: sample a live target *)
-      else (mkL (Some s) (lk_lmt l) MIN_DT [], false).     (* silent: nothing to sample *)
+      if newv then (mkL (Some s) t MIN_DT [] [], true)        (* bind_current_value: sample a live target *)
+      else (mkL (Some s) (lk_lmt l) MIN_DT [] [], false).     (* silent: nothing to sample *)
 
 (* what a consumer reads through the link at time t *)
 Record reading := mkR {
@@ -205,7 +221,7 @@ Definition read (sh : shape) (t : Z) (ts : list target) (l : link) : reading :=
   let lmt := if valid then Z.max (lk_lmt l) (tlmt g) else lk_lmt l in
   let vals := if valid then tval g else [] in
   let d := if negb modified then ([], [])
-           else if is_keyed sh && (lk_trans l =? t) then sample_delta sh (lk_prev l) vals
+           else if is_keyed sh && (lk_trans l =? t) then sample_delta_impl sh (lk_prev l) (lk_stale l) vals
            else match sh with
                 | ShTS => (vals, [])
                 | _ => if tlmt g =? t then (tupd g, trem g) else ([], [])
@@ -237,7 +253,7 @@ Definition step (sh : shape) (op : Z) (st : state) (c : cyc) : state * cout :=
   (* phase 1: the sources tick; a ticking target notifies the link subscribed to it *)
   let ts := tick_all sh t (c_ticks c) (tgts st) in
   let bound_ticked := match lk_tgt (lnk st) with Some i => ticks c i | None => false end in
-  let l1 := if bound_ticked then mkL (lk_tgt (lnk st)) t (lk_trans (lnk st)) (lk_prev (lnk st)) else lnk st in
+  let l1 := if bound_ticked then mkL (lk_tgt (lnk st)) t (lk_trans (lnk st)) (lk_prev (lnk st)) (lk_stale (lnk st)) else lnk st in
   (* phase 2: the selector is evaluated iff its selector input ticked *)
   let pub := match c_sel c with Some v => selector op v (rout st) | None => None end in
   (* phase 3: a tick of the reference output refreshes the dereferencing link *)
